@@ -111,7 +111,8 @@ def parseWord (w : String) : Option Uuid.Word :=
   mcqlp <hex16|nil>                    → ok null|<16 bytes>                (gocql.Marshal of a *UUID)
   useq <prev16> <step>...              → ok:<dst>|err:<dst> per step, all on ONE destination
   rtdirty <prev16> <u16>               → u (every printer → every decoder, destination holding prev)
-  sched <c0> <hw> <sec> <nsec> <word>… → distinct|dup:<i>,<j> n=<returned> ctr=<counter> inflight=<k> h=<hash of all results> [g:uuid …]
+  sched <c0> <hw> <sec> <nsec> <word>… → distinct|dup:<i>,<j> n=<returned> ctr=<counter> inflight=<k> mon=ok|BROKEN h=<hash of all results> [g:uuid …]
+                                         (mon: timestamps inside [tick start, tick end] and non-decreasing per goroutine, C19_conc_goroutine_timestamps_monotone)
                                          a SCHEDULE of the two steps of TimeUUID() per goroutine (n<g> reading, i<g> increment, c<g> both,
                                          w<d> wall clock +d ns, r<k>:<g>:<d> = k times w<d> c<g>) run through Model/UuidConc;
                                          ≤ 16384 returns ⇒ distinct for every interleaving (C19_conc_unique_upto_16384); schedx = longer
@@ -283,7 +284,8 @@ def step (_ : Unit) (ws : List String) : Unit × String :=
           | none => "distinct"
         let listing := if s.out.length ≤ 24 then
             String.join (s.out.map fun r => s!" {r.g}:{toHex r.uuid}") else ""
-        s!"{verdict} n={s.out.length} ctr={s.clockSeq} inflight={s.held.length} h={Uuid.foldHash us}{listing}"
+        let mon := if Uuid.monitorsOk (sec, ns) s.wall s.out then "ok" else "BROKEN"
+        s!"{verdict} n={s.out.length} ctr={s.clockSeq} inflight={s.held.length} mon={mon} h={Uuid.foldHash us}{listing}"
       | _, _, _, _, _ => "bad-op"
   | ["conc", g, n] => match natArg g, natArg n with
       | some g, some n => if g * n ≤ 16384 then "distinct" else "unconstrained"
